@@ -11,12 +11,12 @@ var allPolicies = []model.Handling{model.HDefault, model.HReplace, model.HReplac
 var Flavours = map[string]*Flavour{
 	"C12": {Prop: "C12", WCreate: 1, WMerge: 1, WSet: 6, WSetChild: 2, WRemove: 3, WChild: 2, WRead: 4, WIllegal: 1,
 		Policies: []model.Handling{model.HDefault}, Nil: true, Reattach: true},
-	"C01": {Prop: "C01", WCreate: 2, WMerge: 8, WRead: 1,
-		Policies: allPolicies, Nil: true, Mixed: true},
+	"C01": {Prop: "C01", WCreate: 2, WMerge: 8, WRead: 1, WChild: 1,
+		Policies: allPolicies, Nil: true, Mixed: true, Overlap: true},
 	"C16": {Prop: "C16", WCreate: 2, WMerge: 8, WRead: 1,
 		Policies: allPolicies, Nil: true, FieldOpts: true},
 	"C10": {Prop: "C10", WCreate: 2, WMerge: 6, WSet: 3, WSetChild: 1, WRemove: 2, WChild: 3, WRead: 1,
-		Policies: allPolicies, CfgSources: true, Nil: true, FieldOpts: true},
+		Policies: allPolicies, CfgSources: true, Nil: true, FieldOpts: true, Overlap: true},
 	// C14's slice of E1: histories that move elements, then reads that must fail and name the setting
 	"C14": {Prop: "C14", WCreate: 1, WMerge: 3, WSet: 3, WSetChild: 2, WRemove: 4, WChild: 2, WRead: 6, WIllegal: 2,
 		Policies: []model.Handling{model.HDefault, model.HAppend, model.HPrepend, model.HReplaceArr}, Nil: true, MoveBias: true, Meta: true},
@@ -28,7 +28,7 @@ var Flavours = map[string]*Flavour{
 // judged by the run-wide monitors alone (no panic, no fatal error, termination). State
 // disagreements with the model belong to other properties and are foreign observations here.
 var Histories = &Flavour{Prop: "C07", WCreate: 1, WMerge: 3, WSet: 4, WSetChild: 2, WRemove: 5, WChild: 2, WRead: 3, WIllegal: 1,
-	Policies: allPolicies, CfgSources: true, Nil: true, Mixed: true, MoveBias: true}
+	Policies: allPolicies, CfgSources: true, Nil: true, Mixed: true, MoveBias: true, Overlap: true}
 
 // Run executes one world run for the given property flavour.
 func Run(r *sim.R, f *Flavour, maxSteps int) {
